@@ -146,6 +146,12 @@ theorem sim_pLen (s : St) (t id : Nat) (h : Inv s) (w : Win s) (hl : s.thr t = .
   simp only [step32, step, img_thr, hl, imgLoc, img_head, e]
   close_st t
 
+/-- the length answered by an index-based publication: the `u32` machine computes the very `u32` expression the `Nat` model is defined by -/
+theorem sim_rLen (s : St) (t g : Nat) (hl : s.thr t = .rLen g) :
+    step32 (img s) t = some (img (step s t)) := by
+  simp only [step32, step, img_thr, hl, imgLoc, img_head]
+  close_st t
+
 theorem sim_cFetch (s : St) (t : Nat) (hl : s.thr t = .cFetch) :
     step32 (img s) t = some (img (step s t)) := by
   simp only [step32, step, img_thr, hl, imgLoc]
@@ -299,6 +305,7 @@ theorem sim_step (s : St) (t : Nat) (h : Inv s) (w : Win s) (hni : NotIdx (s.thr
   | pPublish v id len => exact sim_pPublish s t v id len h w hl
   | pLen id => exact sim_pLen s t id h w hl
   | rPub id idx g => exact absurd hl (hni.1 id idx g)
+  | rLen g => exact sim_rLen s t g hl
   | rCan id idx g => exact absurd hl (hni.2 id idx g)
   | cFetch => exact sim_cFetch s t hl
   | cLoadTail id => exact sim_cLoadTail s t id h w hl
